@@ -9,7 +9,13 @@ use subjects::vt::VT;
 pub fn cuts(vt: &VT, shape: &Shape, v: &Value) -> Result<usize, String> {
 	let Ok(enc) = ref_enc(shape, v) else { return Ok(0) };
 	let enc = if shape.order_free() { guarded(|| (vt.encode)(v)).map_err(|p| format!("encode panicked: {}", p))? } else { enc };
-	for k in 0..enc.len() {
+	// long encodings: every cut near both ends and at the chunk-sized steps in between
+	let ks: Vec<usize> = if enc.len() <= 600 {
+		(0..enc.len()).collect()
+	} else {
+		(0..40).chain((1..enc.len() / 1024).map(|i| i * 1024)).chain(enc.len() - 40..enc.len()).collect()
+	};
+	for k in ks {
 		match guarded(|| (vt.decode)(&enc[..k])) {
 			Err(p) => return Err(format!("decode of a {}-byte prefix panicked: {}", k, p)),
 			Ok(Ok(d)) => {
@@ -22,6 +28,40 @@ pub fn cuts(vt: &VT, shape: &Shape, v: &Value) -> Result<usize, String> {
 				))
 			},
 			Ok(Err(_)) => {},
+		}
+	}
+	// the depth-limited consume-everything variant at exactly the value's nesting depth
+	let d = refmodel::side::depth_all(shape, v);
+	match guarded(|| (vt.decode_all_depth)(d, &enc)) {
+		Err(p) => return Err(format!("decode_all_with_depth_limit({}) panicked: {}", d, p)),
+		Ok(Err(e)) => return Err(format!("decode_all_with_depth_limit({}) fails ({}) on a complete encoding whose container nesting depth is {}", d, e, d)),
+		Ok(Ok(got)) =>
+			if shape.normalize(&got) != shape.normalize(v) {
+				return Err(format!("decode_all_with_depth_limit({}) returns a different value", d));
+			},
+	}
+	// a complete encoding followed by anything: both consume-everything entry points reject, at every limit
+	// that accepts the bare encoding (the lazy byte exploration never appends to a string nobody looked past)
+	for tail in [&[0u8][..], &[0xff], &[0, 0, 0, 0, 0, 0, 0, 0, 0]] {
+		let mut y = enc.clone();
+		y.extend_from_slice(tail);
+		match guarded(|| (vt.decode_all)(&y)) {
+			Err(p) => return Err(format!("decode_all panicked on encoding + {} trailing bytes: {}", tail.len(), p)),
+			Ok(Ok(_)) => return Err(format!("decode_all accepts the encoding of {} followed by {} trailing bytes", value_short(v), tail.len())),
+			Ok(Err(_)) => {},
+		}
+		for l in [d, d.saturating_add(1), u32::MAX] {
+			match guarded(|| (vt.decode_all_depth)(l, &y)) {
+				Err(p) => return Err(format!("decode_all_with_depth_limit({}) panicked on encoding + trailing bytes: {}", l, p)),
+				Ok(Ok(_)) =>
+					return Err(format!(
+						"decode_all_with_depth_limit({}) accepts the encoding of {} followed by {} trailing bytes",
+						l,
+						value_short(v),
+						tail.len()
+					)),
+				Ok(Err(_)) => {},
+			}
 		}
 	}
 	Ok(enc.len())
@@ -96,7 +136,9 @@ pub fn run(tier: Tier, reg: &[VT]) -> Report {
 	let acc = par(reg, |vt, acc| {
 		heartbeat(vt.name);
 		let shape = (vt.shape)();
-		for v in domain::values(&shape, &b) {
+		let mut bb = b.clone();
+		bb.big_fills = vt.core || tier.thorough();
+		for v in domain::values(&shape, &bb) {
 			acc.evaluations += 1;
 			match cuts(vt, &shape, &v) {
 				Ok(n) => {
@@ -128,7 +170,9 @@ pub fn run(tier: Tier, reg: &[VT]) -> Report {
 	];
 	let acc = par(reg, |vt, acc| {
 		let shape = (vt.shape)();
-		for v in domain::values(&shape, &b) {
+		let mut bb = b.clone();
+		bb.big_fills = vt.core || tier.thorough();
+		for v in domain::values(&shape, &bb) {
 			if ref_enc(&shape, &v).is_err() {
 				continue;
 			}
